@@ -61,6 +61,9 @@ def run(ctx):
     # match belongs to (otherwise the highlight is longer than / elsewhere than what was typed)
     from . import r_highlight as RH
     RH.span_arithmetic(ctx, "R05.e")
+    # lower-casing keeps the text length (one character in, one out): spans are computed on the normalised text and drawn on
+    # the original
+    RK.lower_rules(ctx, "R05.f")
     return info("R20.c: the search runner clears the result buffer on every path. R05.b: hits can only come from index candidates = enumerate positions whose freshly reset counter is > 0, counted "
                 "over the shared gram generator; R05.c: records without a word match are filtered out; R05.d: NotAlphaNum / split "
                 "classes are the std predicates, so a query with a letter or digit has a word. R05.a: the |qslice - rslice| gate on the path to WordMatch::new_pair is located by data-flow "
